@@ -9,6 +9,7 @@ import LasModel.Driver.ReaderD
 import LasModel.Driver.ScalD
 import LasModel.Driver.ConvD
 import LasModel.Driver.XdD
+import LasModel.Driver.StreamD
 namespace LasModel.Driver
 
 def dispatch (line : String) : String :=
@@ -23,6 +24,7 @@ def dispatch (line : String) : String :=
   | "sc" :: rest => (ScalD.handle rest).getD "bad-op"
   | "cv" :: rest => (ConvD.handle rest).getD "bad-op"
   | "xd" :: rest => (XdD.handle rest).getD "bad-op"
+  | "st" :: rest => (StreamD.handle rest).getD "bad-op"
   | _ => "bad-op"
 
 partial def loop (h : IO.FS.Stream) (out : IO.FS.Stream) : IO Unit := do
